@@ -47,6 +47,8 @@ def scenarios(tier):
     for ki, (conv, kw, kinds) in enumerate(KIND_CONFIGS):
         for kind in kinds:
             out.append({'name': f'selector[{conv}.{kind}]', 'fn': 'scn_selector', 'kwargs': {'ki': ki, 'kind': kind}})
+    for bd in ('yx4', 'xy4'):
+        out.append({'name': f'CFGrid2D stored bounds are used only when they are on the grid of the coordinate[bounds dims {bd}]', 'fn': 'scn_bounds_lookup', 'kwargs': {'bd': bd}})
     for conv in ('CFGrid1D', 'CFGrid2D', 'ShocStandard', 'UGrid'):
         out.append({'name': f'strtree[{conv}]', 'fn': 'scn_strtree', 'kwargs': {'conv': conv}})
     # flattened data: grid dimensions in both relative orders, with an extra dimension in between
@@ -62,6 +64,10 @@ def scn_polygons(c, gi):
 
 def scn_validity(c, gi):
     return C06.scn_validity(c, gi)
+
+
+def scn_bounds_lookup(c, bd):
+    return C06.scn_bounds_lookup(c, bd)
 
 
 def scn_mesh(c, mi):
